@@ -259,8 +259,6 @@ Proof.
   repeat split; auto using incl_refl. lia.
 Qed.
 
-(** no non-reservation pod besides the consumer: the sync has nothing to delete but reservation pods *)
-Definition rsv_only (st : store) : Prop := Forall (fun p => p_rsv p = true) (others st).
 
 Lemma rsv_only_incl st st' : rsv_only st -> incl (others st') (others st) -> rsv_only st'.
 Proof. unfold rsv_only. rewrite !Forall_forall. intros H Hi p Hp. apply H, Hi, Hp. Qed.
